@@ -376,6 +376,15 @@ def pmap(fn, items, nproc: int | None = None, chunksize: int = 1):
         return pool.map(fn, items, chunksize=chunksize)
 
 
+def thorough(n: int) -> int:
+    """Case count of a thorough tier: the built-in depth times VF_THOROUGH_SCALE (default 1) for longer campaigns."""
+    try:
+        k = float(os.environ.get("VF_THOROUGH_SCALE", "1"))
+    except ValueError:
+        k = 1.0
+    return max(1, int(round(n * k)))
+
+
 def tier_arg(argv_tier: str | None) -> str:
     t = argv_tier or os.environ.get("VERIF_TIER") or "quick"
     return t if t in ("quick", "thorough") else "quick"
